@@ -543,10 +543,12 @@ namespace Pistache::Http::Experimental
             }
             else if (bytes == 0)
             {
-                if (totalBytes == 0)
-                {
-                    connection->handleError("Remote closed connection");
-                }
+                // The peer has closed: a request that is still waiting for its
+                // response fails, whether or not part of the response came
+                // with this wake-up, and nothing that was received on this
+                // connection may be left in the parser for the connection that
+                // is established next.
+                connection->handleError("Remote closed connection");
                 connections.erase(connection->fd());
                 connection->close();
                 break;
@@ -720,6 +722,14 @@ namespace Pistache::Http::Experimental
 
                     if (onDone)
                         onDone();
+                }
+                else
+                {
+                    // a response nobody is waiting for (a server that answers
+                    // the silence on an idle connection with 408 before it
+                    // closes it): it must not be taken for the response to
+                    // the next request
+                    parser.reset();
                 }
             }
         }
